@@ -62,12 +62,21 @@ TickClauses(e) ==
        <<"C07.rt-only-active", SameRun(e) /\ e.rtu > p.rtu => e.pstate # "Stopped">>,
        <<"C07.bt-only-running@" \o e.pstate, sameBlock /\ e.btu > p.btu => e.pstate = "Running">>,
        <<"C07.st-only-running@" \o e.pstate, sameBlock /\ e.stu > p.stu => e.pstate = "Running">>,
+       \* a clock that only ever stands still would satisfy the two clauses above: while the run is Running and progressing and no
+       \* scope starts or ends, Scope Time (the clock of the innermost active scope) does not sit at zero
+       <<"C07.st-not-stuck-at-zero" \o (IF e.edited THEN "@after-live-edit" ELSE ""),
+            sameBlock /\ e.pstate = "Running" /\ e.state = "Running" /\ e.started /\ p.started /\ ~e.stopping /\ p.ptu > 0 /\ e.ptu > p.ptu
+                => ~(p.stu = 0 /\ e.stu = 0)>>,
        \* C08
        <<"C08.safe-before-first-run", ~everStarted /\ ~e.started => e.hw1 = SafeToken>>,
        <<"C08.safe-after-stop", everStarted /\ ~e.started => e.hw1 = SafeToken>>,
        <<"C08.safe-while-paused@" \o (IF e.writerExec \/ writerInPause THEN "command-keeps-writing"
                                       ELSE IF e.err THEN "error-pause" ELSE "pause"),
             p.t >= 0 /\ p.paused /\ e.paused /\ e.started => e.hw1 = SafeToken>>,
+       \* a Stop or Restart that ends a paused run takes the outputs from safe to safe: cancelling the pending Pause must not
+       \* put the values from before the pause back on the hardware for the tick in which the run is being ended
+       <<"C08.safe-when-stop-ends-pause",
+            p.t >= 0 /\ p.paused /\ p.started /\ e.stopping /\ SameRun(e) /\ ~(e.writerExec \/ writerInPause) => e.hw1 = SafeToken>>,
        <<"C08.no-unsafe-write-when-stopped",
             p.t >= 0 /\ ~p.started /\ ~e.started => \A i \in DOMAIN e.w1 : e.w1[i] = SafeToken>>,
        \* C09
